@@ -125,10 +125,12 @@ func c12Post(work, tier string, builds []string, shards int) ([]core.Violation, 
 				continue
 			}
 			total++
-			// signature: function names of all frames, line numbers stripped
+			// signature: function names of all frames, line numbers stripped; the race is "in the
+			// library" when the accessing function (top frame) of either access is library code
 			var sig []string
 			lib := false
-			for _, line := range strings.Split(blk, "\n") {
+			lines := strings.Split(blk, "\n")
+			for li, line := range lines {
 				t := strings.TrimSpace(line)
 				if strings.HasPrefix(t, "github.com/") || strings.HasPrefix(t, "verif/") || strings.HasPrefix(t, "golang.org/") {
 					fn := t
@@ -136,8 +138,23 @@ func c12Post(work, tier string, builds []string, shards int) ([]core.Violation, 
 						fn = fn[:i]
 					}
 					sig = append(sig, fn)
-					if strings.HasPrefix(t, "github.com/ClickHouse/ch-go") {
-						lib = true
+				}
+				if (strings.Contains(line, " by goroutine ") || strings.Contains(line, " by main goroutine")) && (strings.HasPrefix(t, "Read at") || strings.HasPrefix(t, "Write at") || strings.HasPrefix(t, "Previous read at") || strings.HasPrefix(t, "Previous write at") || strings.HasPrefix(t, "Atomic")) {
+					// top frames: skip runtime/sync internals
+					for j := li + 1; j < len(lines) && j < li+40; j += 2 {
+						f := strings.TrimSpace(lines[j])
+						if f == "" {
+							break
+						}
+						// the first frame that belongs to the library or to the harness owns the access
+						// (standard library and third-party frames above it are skipped)
+						if strings.HasPrefix(f, "github.com/ClickHouse/ch-go") {
+							lib = true
+							break
+						}
+						if strings.HasPrefix(f, "verif/") {
+							break
+						}
 					}
 				}
 			}
